@@ -4,6 +4,7 @@
 //!   vx-replay search  <Cxx> <seed> <quick|full>   enumerate small domains + seeded random inputs; JSON result on the last line
 //!   vx-replay finding <id>                         re-run the witness of a known finding
 //!   vx-replay replay  <case...>                    re-execute one recorded case
+mod c01;
 mod c0203;
 mod c04;
 mod c05;
@@ -88,6 +89,7 @@ fn main() {
                     SearchResult { evaluations: a.evaluations + b.evaluations, failures, summary: format!("{}; {}", a.summary, b.summary) }
                 }
                 "C17" => c17::search(seed, full),
+                "C01" => c01::search(seed, full, &rt),
                 "C02" | "C03" => c0203::search(seed, full, &rt),
                 "C18" => {
                     // the labels the server places in the tree vs the labels the proofs verify to: tampered histories + end-to-end answers
@@ -144,6 +146,7 @@ fn main() {
             let (fails, detail) = match case[0] {
                 "c08" => c08::replay(&case[1..], &rt),
                 "c17" => c17::replay(&case[1..]),
+                "c01" => c01::replay(&case[1..], &rt),
                 "c0203" => c0203::replay(&case[1..], &rt),
                 "c04" => c04::replay(&case[1..], &rt),
                 "c05" => c05::replay(&case[1..], &rt),
